@@ -48,7 +48,7 @@ def inhalf(vec):
     return vec - np.floor(vec + 0.5)
 
 
-def maptranslation(oldpos, newpos, oldspins=None, newspins=None, threshold=1e-8):
+def maptranslation(oldpos, newpos, oldspins=None, newspins=None, threshold=1e-8, alltrans=False):
     """
     Given a list of transformed positions, identify if there's a translation vector
     that maps from the current positions to the new position.
@@ -64,6 +64,8 @@ def maptranslation(oldpos, newpos, oldspins=None, newspins=None, threshold=1e-8)
     :param newpos: list of list of array[3], same layout as oldpos
     :param oldspins: (optional) list of list of numbers/arrays
     :param newspins: (optional) list of list of numbers/arrays
+    :param alltrans: (optional) if True, return the list of *all* (translation, mapping) pairs that work
+        (more than one when the cell is not primitive); an empty list if there are none
     :return translation: array[3]
     :return mapping: list of list of indices
     """
@@ -99,6 +101,7 @@ def maptranslation(oldpos, newpos, oldspins=None, newspins=None, threshold=1e-8)
             maxlen = len(ulist)
             atomindex = i
     ru0 = newpos[atomindex][0]
+    found = []
     for ub in oldpos[atomindex]:
         trans = inhalf(ub - ru0)
         foundmap = True
@@ -118,7 +121,11 @@ def maptranslation(oldpos, newpos, oldspins=None, newspins=None, threshold=1e-8)
                 foundmap = False
             else:
                 indexmap.append(tuple(maplist))
-        if foundmap: break
+        if foundmap:
+            if not alltrans: break
+            found.append((trans, tuple(indexmap)))
+    if alltrans:
+        return found
     if foundmap:
         return trans, tuple(indexmap)
     else:
@@ -837,7 +844,6 @@ class Crystal(object):
             if not self.__isclose__(t, T/M): continue
             # t becomes the new first cell vector below, in place of a_m (m = index of the smallest non-zero T):
             # that only spans the same lattice if |T_m| divides M and every other T_i; else try the next translation
-            T = (T + M//2) % M - M//2
             Tmin = min(abs(v) for v in T if v != 0)
             if M % Tmin != 0 or any(v % Tmin != 0 for v in T): continue
             t = T/M
@@ -1058,12 +1064,13 @@ class Crystal(object):
                 # if det * tr < -1 or det * tr > 3: return False
                 for phase in rootsofunity(optype):
                     newspins = [[phase * s for s in spinlist] for spinlist in rotspins]
-                    trans, indexmap = maptranslation(self.basis,
-                                                     [[np.dot(supercell, u)
-                                                       for u in atomlist]
-                                                      for atomlist in self.basis],
-                                                     spins, newspins, threshold=self.threshold)
-                    if indexmap is not None:
+                    # (all translations: a cell that is not primitive (noreduce) has several per rotation, and
+                    # leaving any out gives a set that is not closed under multiplication)
+                    for trans, indexmap in maptranslation(self.basis,
+                                                          [[np.dot(supercell, u)
+                                                            for u in atomlist]
+                                                           for atomlist in self.basis],
+                                                          spins, newspins, threshold=self.threshold, alltrans=True):
                         groupops.append(GroupOp(supercell,
                                                 trans,
                                                 cartrot,
